@@ -315,7 +315,7 @@ DIMS = {
     'kind': ['component', 'system'],
     'prefix': ['', 'Other.Project', 'M'],     # 'M': the name of the innermost namespace of an encapsulee in N.M
     'stem': ['M', 'VeryLongDezyneModelFileNameForTheHeatingSubsystemCtrl'],
-    'nameform': ['plain', 'subclass'],
+    'nameform': ['plain', 'subclass', 'selsubclass'],     # selsubclass: the selections are instances of a user's subclass of PortSelect
     'portorder': ['grouped', 'interleaved'],
     'extspell': ['plain', 'exotic'],
     'cxxflags': ['debug', 'release'],
@@ -451,7 +451,7 @@ def valid_point(pt):
             return False
     if pt['rsem'] in ('firstmts', 'firststs', 'lastmts', 'laststs') and pt['nreq'] < 2:
         return False
-    if pt.get('nameform', 'plain') != 'plain' and pt['rsem'] in ('allmts', 'allsts') and pt['mc'] == 'none':
+    if pt.get('nameform', 'plain') == 'subclass' and pt['rsem'] in ('allmts', 'allsts') and pt['mc'] == 'none':
         return False            # no name is written anywhere in such a configuration
     if pt.get('mcsig', 'io') != 'io' and pt['mc'] == 'none':
         return False
@@ -637,8 +637,8 @@ def build_model(pt):
     cfg = {'suffix': 'Shell', 'fac': pt['fac'], 'prefix': pt['prefix'], 'sem': sem,
            'provides': psel, 'requires': rsel, 'mc': None,
            'copyright': 'Copyright (c) verif\nAll rights reserved', 'creator': 'created by vf'}
-    if pt.get('nameform', 'plain') == 'subclass':
-        cfg['names_form'] = 'subclass'
+    if pt.get('nameform', 'plain') != 'plain':
+        cfg['names_form'] = pt['nameform']
     if mc_port is not None:
         claim, release = CLAIM_NAMES[pt['evnames']]
         cfg['mc'] = {'port': prov[mc_port], 'claim': claim, 'grant': res_enum[2][grant_idx], 'release': release,
